@@ -13,7 +13,7 @@ git apply $sd/patch.diff || { echo "PATCH DOES NOT APPLY"; exit 2; }
 PYTHONPATH=$wt timeout 600 /venv/bin/python $sd/demo.py >/tmp/sc-$$.out 2>&1; c1=$?
 suite=$(PYTHONPATH=$wt /venv/bin/python -m pytest -q -p no:cacheprovider dds_tests 2>&1 | tail -1)
 echo "seed=$(basename $sd) demo_clean=$c0 demo_patched=$c1 suite='$suite'"
-cd /verif
+cd "$(dirname "$0")/.."
 for id in "$@"; do
   out=$(VERIF_EVIDENCE_DIR=/tmp/sc-evidence VERIF_REPO=$wt timeout 3000 /venv/bin/python -W ignore -m vf.run $id --tier ${SEED_TIER:-quick} 2>&1); rc=$?
   echo "  check $id -> exit $rc : $(echo "$out" | grep -v KNOWN-FINDING | head -2 | cut -c1-260 | tr '\n' ' ')"
